@@ -111,7 +111,7 @@ func sizeClass(n int) string {
 
 func dirCases(r *mon.Run) []dirCase {
 	var out []dirCase
-	fams := []string{"ascii", "mixed", "hexprefix", "legacy", "single", "numeric"}
+	fams := []string{"ascii", "mixed", "hexprefix", "legacy", "single", "numeric", "badutf8"}
 	for _, f := range allFanouts {
 		sizes := []int{0, 1, 2, 3, f - 1, f, f + 1, 2*f + 1, 300}
 		if !r.Quick() {
@@ -169,11 +169,17 @@ func dirCases(r *mon.Run) []dirCase {
 }
 
 type qnode struct {
-	c  cid.Cid
-	sz int64
+	c    cid.Cid
+	sz   int64
+	fail bool
 }
 
-func (q qnode) Size() (int64, error) { return q.sz, nil }
+func (q qnode) Size() (int64, error) {
+	if q.fail {
+		return 0, fmt.Errorf("size unknown")
+	}
+	return q.sz, nil
+}
 func (q qnode) Link() ipld.Link      { return cidlink.Link{Cid: q.c} }
 
 // buildDir runs the builder named by the case.
@@ -192,7 +198,8 @@ func buildDir(d dirCase, st *store.Store, entries []dagpb.PBLink, model map[stri
 		err := quickbuilder.Store(ls, func(b *quickbuilder.Builder) error {
 			m := map[string]quickbuilder.Node{}
 			for n, c := range model {
-				m[n] = qnode{c, int64(sizes[n])}
+				// a user-implemented Node may fail to report its size (every seventh name here)
+				m[n] = qnode{c, int64(sizes[n]), len(n)%7 == 3 && d.Family != "long"}
 			}
 			nd := b.NewMapDirectory(m)
 			if nd == nil {
